@@ -49,7 +49,7 @@ COMPONENTS = {"real": ["parser, generator, graphs, mol_prob, force-field typing,
 
 OPS = ["gen_seeded", "gen_seeded", "gen_seeded", "gen_global", "print", "parse_again", "elements_mutate", "mirror_mutate",
        "mirror_generate", "reaction_graph", "atom_graph", "ensemble_prob", "typing", "perturb_global", "gen_fault", "system_iter",
-       "gen_seeded_sim", "atom_graph_generate", "ensemble_prob_value", "natural_failure", "natural_failure"]
+       "gen_seeded_sim", "atom_graph_generate", "ensemble_prob_value", "natural_failure", "natural_failure", "system_pass", "system_pass"]
 
 # Operations that fail on their own (no injected fault): whatever error path they take must leave nothing behind that a later
 # operation can see -- in the objects, in the library's modules, or in process-wide settings of numpy / RDKit.
@@ -238,6 +238,31 @@ def _ensemble_prob_value(g, obj, seed):
         return ("exc", type(exc).__name__)
 
 
+def _system_pass(g, obj, seed, limit=80):
+    """one complete pass over System.generator with a seeded generator: [(SMILES, mass)] of the ensemble"""
+    fget = g.System.generator.fget
+    old = fget.__defaults__
+    fget.__defaults__ = (np.random.default_rng(seed),)
+    try:
+        if not obj.generable:
+            return ("skip",)
+        gen = obj.generator
+    finally:
+        fget.__defaults__ = old
+    rows = []
+    try:
+        for mg in gen:
+            rows.append((mg.smiles, round(float(mg.weight), 6)))
+            if len(rows) >= limit:
+                gen.close()
+                return ("ok", "truncated", tuple(rows))
+    except SimAbort:
+        raise
+    except Exception as exc:
+        return ("exc", type(exc).__name__, len(rows))
+    return ("ok", "complete", tuple(rows))
+
+
 def _baseline_compute(req):
     """Runs in a fresh child of the pristine server."""
     g = boot.load()
@@ -278,6 +303,8 @@ def _baseline_compute(req):
                 return ("ok", _graph_digest(sg.graph))
             except Exception as exc:
                 return ("exc", type(exc).__name__)
+        if kind == "system_pass":
+            return _system_pass(g, obj, req["seed"])
         if kind == "atom_graph_generate":
             return _atom_graph_generate(g, obj, req["seed"])
         if kind == "ensemble_prob_value":
@@ -291,7 +318,7 @@ def spec_from_seed(run_seed, tier):
     n_in = rnd.choice([2, 2, 3, 4])
     inputs = []
     for i in range(n_in):
-        if rnd.random() < 0.15:
+        if rnd.random() < 0.22:
             for _ in range(10):
                 t, tags, sysw = archetypes.gen_system(rnd, {"safe_dist": True})
                 if sysw is None and archetypes.token_budget_ok(t, 20):
@@ -542,6 +569,21 @@ class _Client:
                 self.count("system_iter_raised")
             if o["seed"] % 2:
                 gen.close()
+            return None
+        if op == "system_pass":
+            if inp["kind"] != "system":
+                return None
+            b = baseline({"what": "system_pass", "text": inp["text"], "kind": inp["kind"], "seed": o["seed"]})
+            if b[0] == "harness_exc":
+                return f"baseline failed: {b}"
+            got = _system_pass(g, obj, o["seed"])
+            self.mutating += 1
+            self.count("system_passes_compared")
+            if tuple(got) != tuple(b):
+                def short(r):
+                    return (r[0], r[1], len(r[2]), round(sum(w for _, w in r[2]), 3)) if r[0] == "ok" else r
+                self.viol("derived_output_differs", f"op {self.stats['operations']} ensemble pass (seed {o['seed']}) over {inp['text']!r}: got {short(got)} "
+                          f"(status, completeness, members, mass), history-free baseline {short(b)}")
             return None
         if op == "gen_fault":
             return self.faulted_generate(o, obj, o["fault"], None, o["frac"])
